@@ -224,7 +224,8 @@ static int keyswitch(int t, int basebit, int n) {
 #include <cmath>
 #include <algorithm>
 static int kscreate() {
-    static const int shapes[][3] = {{3, 2, 1}, {5, 3, 2}, {300, 8, 2}, {2048, 16, 1}, {1024, 32, 1}, {1500, 7, 2}};
+    static const int shapes[][3] = {{3, 2, 1}, {5, 3, 2}, {300, 8, 2}, {2048, 16, 1}, {1024, 32, 1}, {1500, 7, 2},
+                                    {2048, 1, 1}, {2048, 2, 1}, {700, 1, 2}};   /* the last three: few rows per key coefficient (t*(base-1) = 1, 2, 3) and many coefficients */
     const double alpha = 0.01; const int nout = 4;
     for (auto &sh : shapes) { int n = sh[0], t = sh[1], bb = sh[2], base = 1 << bb;
         LweParams *ip = new_LweParams(n, 0., 0.), *op = new_LweParams(nout, alpha, 0.2); LweKey *ik = new_LweKey(ip), *ok = new_LweKey(op);
